@@ -206,6 +206,7 @@ def run(ck, tier):
     _loopback(ck, p)
     _open_guard(ck, p)
     _save_paths(ck, p)
+    _config_keys(ck, p)
     _dict_name(ck, p)
     _noread(ck, p, g)
     _externs(ck, g, par_net)
@@ -392,6 +393,88 @@ def _str_eq_guards(f):
                 if tb is not None:
                     out.append((lit, tb))
     return out
+
+
+# ---- the configured paths are the ones the client configured ---------------------------------------
+def _snake(key):
+    return re.sub(r"(?<!^)([A-Z])", lambda m: "_" + m.group(1).lower(), key).lower()
+
+
+def _config_keys(ck, p):
+    """`Config::from_lsp_config` is a table of (settings key -> Config field).  Wherever a key
+    spells the name of a Config field (`statsPath` / `stats_path`), the value read under that key
+    is what that field receives, and no field receives only the value of a key that names another
+    field.  R-C10-files traces the writers' destinations to `Config.stats_path` /
+    `.file_dict_path` / `.user_dict_path`: that says "the configured files" only if these fields
+    hold what the client configured under their own names."""
+    rule = "R-C10-files"
+    f = p.fns.get("harper_ls::config::{impl#2}::from_lsp_config")
+    if f is None:
+        for g in p.find(lambda g: (g.pretty or "").endswith("config::Config::from_lsp_config")):
+            f = g
+    if not ck.anchor(rule, "Config::from_lsp_config", f):
+        return
+    ck.saw(f)
+    pv = Prov(f)
+    # stores into fields of the result (`base.<field> = ..`), with the settings keys that feed each
+    stores = []          # (field, ln, keys)
+    fields = set()
+    for bi, b in enumerate(f.blocks):
+        if b["cleanup"]:
+            continue
+        for s_ in b["s"]:
+            if s_["k"] != "assign" or len(s_["lhs"]) != 2:
+                continue
+            e = s_["lhs"][1]
+            if not (isinstance(e, list) and e[0] == "f"):
+                continue
+            if "Config" not in f.local_tystr(s_["lhs"][0]) or "CodeAction" in f.local_tystr(s_["lhs"][0]):
+                continue
+            rv = s_["rv"]
+            ops = [rv[k] for k in ("op", "a", "b") if isinstance(rv.get(k), dict)]
+            keys = set()
+            for op in ops:
+                for o in arg_roots(f, pv, op):
+                    if o[0] != "call" or last(norm(o[2] or "")) != "get":
+                        continue
+                    t = f.blocks[o[1]]["t"]
+                    for a in t["args"][1:]:
+                        for c in flatten(pv.trace_operand(a)):
+                            if c[0] == "const":
+                                m = re.match(r'^"(.*)"$', str(c[1]))
+                                if m:
+                                    keys.add(m.group(1))
+            stores.append((e[2], s_.get("ln"), keys))
+            fields.add(e[2])
+    # all literal keys the function asks for
+    asked = set()
+    for bi, t in f.calls():
+        if method(t) != "get":
+            continue
+        for a in t["args"][1:]:
+            for c in flatten(pv.trace_operand(a)):
+                if c[0] == "const":
+                    m = re.match(r'^"(.*)"$', str(c[1]))
+                    if m:
+                        asked.add(m.group(1))
+    # the struct's field names: those stored here plus those the writers read
+    fields |= {"user_dict_path", "file_dict_path", "stats_path"}
+    naming = {k: _snake(k) for k in asked if _snake(k) in fields}
+    ck.floor(rule, "settings keys that spell a Config field in from_lsp_config", len(naming), 3)
+    for key, fld in sorted(naming.items()):
+        mine = [s_ for s_ in stores if s_[0] == fld]
+        fed = [s_ for s_ in mine if key in s_[2]]
+        elsewhere = sorted({s_[0] for s_ in stores if key in s_[2] and s_[0] != fld})
+        k = "config-key:%s" % key
+        if fed and not elsewhere:
+            ck.proved(rule, k, f.loc(fed[0][1]), "the value read under \"%s\" is stored in Config.%s and in no other field" % (key, fld))
+        elif elsewhere:
+            ck.refuted(rule, k, f.span, "the value read under the settings key \"%s\" is stored in Config.%s%s: the location the client configured for one kind of file is used for another, and Config.%s keeps %s - files are then created or changed at places that are not the configured ones"
+                       % (key, ", ".join(elsewhere), "" if fed else " and never in Config.%s" % fld, fld, "a value from elsewhere" if fed else "its built-in default whatever the client configured"))
+        elif not mine:
+            ck.undecided(rule, k, f.span, "no store into Config.%s found in from_lsp_config although the key \"%s\" is read" % (fld, key))
+        else:
+            ck.undecided(rule, k, f.loc(mine[0][1]), "could not relate the stores into Config.%s to the key \"%s\" (keys seen: %s)" % (fld, key, sorted(set().union(*[s_[2] for s_ in mine]))))
 
 
 # ---- destinations of the two writers derive from the configured paths -----------------------------
